@@ -44,34 +44,38 @@ fn canon_lww(l: &LwwRegister<SDS>) -> String {
 fn components(v: &ReplicatedValue) -> Vec<(&'static str, String)> {
     let mut out = Vec::new();
     out.push(("type", v.crdt.type_name().to_string()));
+    let (mut value, mut tomb, mut lww_stamp, mut hash_content, mut hash_stamps) = ("none".to_string(), "false".to_string(), String::new(), String::new(), String::new());
     match &v.crdt {
         CrdtValue::Lww(l) => {
-            out.push((
-                "value",
-                match l.get() {
-                    Some(s) => format!("'{}'", esc(s.as_bytes())),
-                    None => "none".into(),
-                },
-            ));
-            out.push(("tombstone", l.tombstone.to_string()));
-            out.push(("lww-stamp", canon_clock(&l.timestamp)));
-            out.push(("hash-content", String::new()));
+            if let Some(s) = l.get() {
+                value = format!("'{}'", esc(s.as_bytes()));
+            }
+            tomb = l.tombstone.to_string();
+            lww_stamp = canon_clock(&l.timestamp);
         }
         CrdtValue::Hash(h) => {
-            out.push(("value", "none".into()));
-            out.push(("tombstone", "false".into()));
-            out.push(("lww-stamp", String::new()));
+            let mut f: Vec<String> = h
+                .iter()
+                .map(|(k, l)| match l.get() {
+                    Some(v) => format!("{}='{}'", k, esc(v.as_bytes())),
+                    None => format!("{}={}", k, if l.tombstone { "†" } else { "nil" }),
+                })
+                .collect();
+            f.sort();
+            hash_content = f.join(",");
             let mut f: Vec<String> = h.iter().map(|(k, l)| format!("{}={}", k, canon_lww(l))).collect();
             f.sort();
-            out.push(("hash-content", f.join(",")));
+            hash_stamps = f.join(",");
         }
         other => {
-            out.push(("value", format!("{:?}", other)));
-            out.push(("tombstone", "false".into()));
-            out.push(("lww-stamp", String::new()));
-            out.push(("hash-content", String::new()));
+            value = format!("{:?}", other);
         }
     }
+    out.push(("value", value));
+    out.push(("tombstone", tomb));
+    out.push(("lww-stamp", lww_stamp));
+    out.push(("hash-content", hash_content));
+    out.push(("hash-field-stamps", hash_stamps));
     out.push(("expiry", format!("{:?}", v.expiry_ms)));
     out.push(("stamp", canon_clock(&v.timestamp)));
     out.push(("vector-clock", if v.vector_clock.is_some() { format!("{:?}", v.vector_clock) } else { "-".into() }));
@@ -84,7 +88,7 @@ fn canon_value(v: &ReplicatedValue) -> String {
     let get = |n: &str| c.iter().find(|(k, _)| *k == n).map(|(_, t)| t.clone()).unwrap_or_default();
     let body = match get("type").as_str() {
         "lww" => format!("lww {}{}@{}", get("value"), if get("tombstone") == "true" { "†" } else { "" }, get("lww-stamp")),
-        "hash" => format!("hash{{{}}}", get("hash-content")),
+        "hash" => format!("hash{{{}}}", get("hash-field-stamps")),
         _ => get("value"),
     };
     let mut s = format!("{} ts={}", body, get("stamp"));
@@ -104,6 +108,24 @@ fn canon_value(v: &ReplicatedValue) -> String {
 fn diff_components(a: &ReplicatedValue, b: &ReplicatedValue) -> Vec<&'static str> {
     let (ca, cb) = (components(a), components(b));
     ca.iter().zip(cb.iter()).filter(|(x, y)| x.1 != y.1).map(|(x, _)| x.0).collect()
+}
+
+/// Components that are bookkeeping of the merge (stamps inside the register / per hash field): two
+/// values differing only there are neither "equal states" nor judged as "differing in an observable".
+const INTERNAL: [&str; 2] = ["lww-stamp", "hash-field-stamps"];
+
+fn observable_diff(a: &ReplicatedValue, b: &ReplicatedValue) -> Vec<&'static str> {
+    diff_components(a, b).into_iter().filter(|c| !INTERNAL.contains(c)).collect()
+}
+
+/// The class named in a signature: the most structural observable component that differs.
+fn primary_class(comps: &[&str]) -> &'static str {
+    for c in ["key-presence", "type", "value", "tombstone", "hash-content", "stamp", "expiry", "vector-clock", "rf"] {
+        if comps.contains(&c) {
+            return c;
+        }
+    }
+    "internal-stamps"
 }
 
 fn canon_state(m: &HashMap<String, ReplicatedValue>) -> BTreeMap<String, String> {
@@ -412,6 +434,7 @@ struct Cov {
     merge_pairs_unequal: u64,
     multi_bucket_contents: u64,
     not_idempotent_skipped: u64,
+    pairs_internal_only: u64,
 }
 impl Cov {
     fn add(&mut self, o: &Cov) {
@@ -425,6 +448,7 @@ impl Cov {
         self.merge_pairs_unequal += o.merge_pairs_unequal;
         self.multi_bucket_contents += o.multi_bucket_contents;
         self.not_idempotent_skipped += o.not_idempotent_skipped;
+        self.pairs_internal_only += o.pairs_internal_only;
     }
 }
 
@@ -558,10 +582,6 @@ fn check_unequal(
         comps.extend(c.iter().copied());
     }
     let comps: Vec<&str> = comps.into_iter().collect();
-    let mut problems: Vec<String> = Vec::new();
-    if !d1 || !d2 {
-        problems.push("differs_from=false".into());
-    }
     let unlisted: Vec<&String> = diff_keys
         .iter()
         .map(|(k, _)| k)
@@ -570,14 +590,23 @@ fn check_unequal(
             !v1.contains(&bk) || !v2.contains(&bk)
         })
         .collect();
-    if !unlisted.is_empty() {
-        problems.push("bucket of the differing key not in divergent_buckets".into());
-    }
-    if problems.is_empty() {
+    // one problem per case: a bucket that is not reported (the sync would skip the key; with a single
+    // differing key and nothing else in the way differs_from is then false as well), else a root
+    // hash that agrees although the bucket is reported
+    let problem = if !unlisted.is_empty() {
+        "the key's bucket is not reported divergent"
+    } else if !d1 || !d2 {
+        "differs_from=false although the bucket is reported"
+    } else {
         return;
-    }
+    };
+    let class = primary_class(&if unlisted.is_empty() {
+        comps.clone()
+    } else {
+        diff_keys.iter().filter(|(k, _)| unlisted.contains(&k)).flat_map(|(_, c)| c.iter().copied()).collect::<Vec<_>>()
+    });
     out.push(Viol {
-        sig: format!("digest false-in-sync: states differ in {} yet {}", comps.join("+"), problems.join(" and ")),
+        sig: format!("digest false in-sync: states differ in {class} yet {problem}"),
         detail: format!(
             "{} merkle depth {}: A = {} (iterates {}) ; B = {} (iterates {}) ; differing keys {:?} ; differs_from={}/{} divergent_buckets={:?}/{:?}",
             context,
@@ -598,7 +627,8 @@ fn check_unequal(
     });
 }
 
-/// Keys whose state differs between two contents (presence counts), with component names.
+/// Keys whose state differs between two contents (presence counts) with the *observable* component
+/// names; a key differing only in internal stamps is listed with an empty component list.
 fn content_diff(ca: &Content, cb: &Content) -> Vec<(String, Vec<&'static str>)> {
     let ma: BTreeMap<&String, &ReplicatedValue> = ca.iter().map(|(k, v)| (k, v)).collect();
     let mb: BTreeMap<&String, &ReplicatedValue> = cb.iter().map(|(k, v)| (k, v)).collect();
@@ -607,15 +637,36 @@ fn content_diff(ca: &Content, cb: &Content) -> Vec<(String, Vec<&'static str>)> 
     for k in keys {
         match (ma.get(k), mb.get(k)) {
             (Some(x), Some(y)) => {
-                let d = diff_components(x, y);
-                if !d.is_empty() {
-                    out.push((k.clone(), d));
+                if !diff_components(x, y).is_empty() {
+                    out.push((k.clone(), observable_diff(x, y)));
                 }
             }
             _ => out.push((k.clone(), vec!["key-presence"])),
         }
     }
     out
+}
+
+/// How a pair of contents is judged.
+enum Judge {
+    Equal,
+    /// keys differing in an observable (these buckets must be reported)
+    Unequal(Vec<(String, Vec<&'static str>)>),
+    /// differ only in internal stamps: neither oracle applies
+    InternalOnly,
+}
+
+fn judge(ca: &Content, cb: &Content) -> Judge {
+    let d = content_diff(ca, cb);
+    if d.is_empty() {
+        return Judge::Equal;
+    }
+    let obs: Vec<(String, Vec<&'static str>)> = d.into_iter().filter(|(_, c)| !c.is_empty()).collect();
+    if obs.is_empty() {
+        Judge::InternalOnly
+    } else {
+        Judge::Unequal(obs)
+    }
 }
 
 const MAX_ATTEMPTS: usize = 20_000;
@@ -654,7 +705,8 @@ fn build_pool(
                 built += 1;
                 // the construction must have produced the intended state; only the merge-based kinds can
                 // legitimately miss it (merge(v,v) != v would be C07's business, not a digest defect)
-                if canon_state(&m) != intended {
+                let verify = rounds == 0 || matches!(kind, Kind::Deltas | Kind::DeltasTwice);
+                if verify && canon_state(&m) != intended {
                     if matches!(kind, Kind::Deltas | Kind::DeltasTwice) {
                         cov.not_idempotent_skipped += 1;
                         continue;
@@ -813,10 +865,14 @@ fn run_item(it: &Item, ctx: &Ctx) -> ItemResult {
             }
             for i in 0..contents.len() {
                 for j in (i + 1)..contents.len() {
-                    let d = content_diff(&contents[i], &contents[j]);
-                    if d.is_empty() {
-                        continue;
-                    }
+                    let d = match judge(&contents[i], &contents[j]) {
+                        Judge::Unequal(d) => d,
+                        Judge::Equal => continue,
+                        Judge::InternalOnly => {
+                            cov.pairs_internal_only += 1;
+                            continue;
+                        }
+                    };
                     nontrivial += 1;
                     let mut out = Vec::new();
                     for a in &pools[i] {
@@ -880,11 +936,15 @@ fn run_item(it: &Item, ctx: &Ctx) -> ItemResult {
                     }
                     observed_min = observed_min.min(px.len()).min(py.len());
                     let (cx, cy) = (cx.unwrap_or_default(), cy.unwrap_or_default());
-                    let d = content_diff(&cx, &cy);
+                    let j = judge(&cx, &cy);
                     cov.contents += 2;
-                    nontrivial += 1;
                     let mut out = Vec::new();
-                    if d.is_empty() {
+                    if matches!(j, Judge::InternalOnly) {
+                        cov.pairs_internal_only += 1;
+                        continue;
+                    }
+                    nontrivial += 1;
+                    if matches!(j, Judge::Equal) {
                         cov.merge_pairs_equal += 1;
                         for a in px.values() {
                             for b in py.values() {
@@ -892,12 +952,12 @@ fn run_item(it: &Item, ctx: &Ctx) -> ItemResult {
                                 check_equal(it.depth, &cx, &cy, a, b, "merge(A,B) vs merge(B,A)", &ctx.recipes, &mut out);
                             }
                         }
-                    } else {
+                    } else if let Judge::Unequal(d) = &j {
                         cov.merge_pairs_unequal += 1;
                         for a in px.values() {
                             for b in py.values() {
                                 cov.neq_comparisons += 1;
-                                check_unequal(it.depth, &cx, &cy, a, b, &d, "merge(A,B) vs merge(B,A)", &ctx.recipes, &mut out);
+                                check_unequal(it.depth, &cx, &cy, a, b, d, "merge(A,B) vs merge(B,A)", &ctx.recipes, &mut out);
                             }
                         }
                     }
@@ -1101,12 +1161,12 @@ fn run_once(cfg: &SyncCfg, ha: &[WOp], hb: &[WOp], limit: usize) -> Result<Once,
                                 format!("{scenario}; key {k} expected {:?}; {fin_txt}", e),
                             ));
                         } else {
-                            let d = diff_components(&fa[k], &fb[k]);
+                            let d = observable_diff(&fa[k], &fb[k]);
                             if d == vec!["stamp"] && fa[k].timestamp.time == fb[k].timestamp.time {
                                 causes.push((S_STAMP.into(), format!("{scenario}; key {k}; {fin_txt}")));
                             } else {
                                 causes.push((
-                                    format!("sync never in-sync within #keys+1 rounds: merged values differ in {}", d.join("+")),
+                                    format!("sync never in-sync within #keys+1 rounds: merged values differ in {}", primary_class(&d)),
                                     format!("{scenario}; key {k}; {fin_txt}"),
                                 ));
                             }
@@ -1119,16 +1179,18 @@ fn run_once(cfg: &SyncCfg, ha: &[WOp], hb: &[WOp], limit: usize) -> Result<Once,
                     let mut comps: BTreeSet<&str> = BTreeSet::new();
                     for k in &union {
                         match (fa.get(k), fb.get(k)) {
-                            (Some(x), Some(y)) => comps.extend(diff_components(x, y)),
+                            (Some(x), Some(y)) => comps.extend(observable_diff(x, y)),
                             _ => {
                                 comps.insert("key-presence");
                             }
                         }
                     }
-                    causes.push((
-                        format!("sync false in-sync: digests agree after sync but states differ in {}", comps.into_iter().collect::<Vec<_>>().join("+")),
-                        format!("{scenario}; {fin_txt}"),
-                    ));
+                    if !comps.is_empty() {
+                        causes.push((
+                            format!("sync false in-sync: digests agree after sync but states differ in {}", primary_class(&comps.into_iter().collect::<Vec<_>>())),
+                            format!("{scenario}; {fin_txt}"),
+                        ));
+                    }
                 }
                 for k in &union {
                     if !divergent0.contains(&bucket_of(k, cfg.depth)) {
@@ -1373,13 +1435,13 @@ fn replay(r: &Value) -> ! {
         let pa = build_pool(&ca, depth, &KINDS, 1, "replay A", &recipes, &mut cov, &mut out);
         let pb = build_pool(&cb, depth, &KINDS, 1, "replay B", &recipes, &mut cov, &mut out);
         println!("A = {} : {} iteration orders observed; B = {} : {} observed", show_content(&ca), pa.len(), show_content(&cb), pb.len());
-        let d = content_diff(&ca, &cb);
+        let j = judge(&ca, &cb);
         for a in &pa {
             for b in &pb {
-                if d.is_empty() {
-                    check_equal(depth, &ca, &cb, a, b, "replay", &recipes, &mut out);
-                } else {
-                    check_unequal(depth, &ca, &cb, a, b, &d, "replay", &recipes, &mut out);
+                match &j {
+                    Judge::Equal => check_equal(depth, &ca, &cb, a, b, "replay", &recipes, &mut out),
+                    Judge::Unequal(d) => check_unequal(depth, &ca, &cb, a, b, d, "replay", &recipes, &mut out),
+                    Judge::InternalOnly => {}
                 }
             }
         }
@@ -1678,6 +1740,7 @@ fn main() {
             "map_instances_built": cov.instances, "equal_state_comparisons": cov.eq_comparisons, "unequal_state_comparisons": cov.neq_comparisons,
             "merge_order_pairs_equal_content": cov.merge_pairs_equal, "merge_order_pairs_unequal_content": cov.merge_pairs_unequal,
             "delta_built_instances_skipped_not_intended_content": cov.not_idempotent_skipped,
+            "pairs_differing_only_in_internal_stamps_not_judged": cov.pairs_internal_only,
             "iteration_orders": orders_json, "pools_missing_an_order": cov.pools_incomplete,
             "max_instances_built_for_one_content": cov.max_attempts_used, "attempt_bound": MAX_ATTEMPTS, "wall_s": t_digest,
         },
